@@ -87,11 +87,11 @@ Proof.
     assert (Ib : In b (visited_nodes x ++ map fst sd)) by (apply in_or_app; exact Hb).
     specialize (Gs a Ia). rewrite forallb_forall in Gs. specialize (Gs b Ib). rewrite E in Gs. cbn [implb] in Gs.
     apply expr_syn_eqb_eq. exact Gs. }
-  unfold subs_gen.
-  pose proof (cached_simulates (subs_pow kind) sd x Hsyn Hwf Hnwf (subs_fuel x) x sd []
-                (Nat.lt_succ_diag_r _) (node_root x) (inv_init (subs_pow kind) sd x Hsyn Hsorted Hwf Hnwf)) as S.
-  destruct (apply (subs_fuel x) (subs_pow kind) true sd sd x) as [[r1 s1]| | |];
-    destruct (apply (subs_fuel x) (subs_pow kind) false sd [] x) as [[r2 s2]| | |]; cbn in S; try contradiction; cbn.
+  unfold subs_gen, subs_with.
+  pose proof (cached_simulates real_sops (subs_pow kind) sd x Hsyn Hwf Hnwf (subs_fuel x) x sd []
+                (Nat.lt_succ_diag_r _) (node_root x) (inv_init real_sops (subs_pow kind) sd x Hsyn Hsorted Hwf Hnwf)) as S.
+  destruct (apply real_sops (subs_fuel x) (subs_pow kind) true sd sd x) as [[r1 s1]| | |];
+    destruct (apply real_sops (subs_fuel x) (subs_pow kind) false sd [] x) as [[r2 s2]| | |]; cbn in S; try contradiction; cbn.
   - destruct S as [-> _]. reflexivity.
   - destruct S as [-> ->]. reflexivity.
   - reflexivity.
@@ -99,21 +99,21 @@ Proof.
 Qed.
 
 (* ---------- subs is xreplace unless the map is a single Pow key ---------- *)
-Lemma pow_result_switch : forall sd x b e b' e', single_pow_key sd = false ->
-  pow_result true sd x b e b' e' = pow_result false sd x b e b' e'.
+Lemma pow_result_switch : forall Sp sd x b e b' e', single_pow_key sd = false ->
+  pow_result Sp true sd x b e b' e' = pow_result Sp false sd x b e b' e'.
 Proof.
-  intros sd x b e b' e' G. unfold pow_result.
+  intros Sp sd x b e b' e' G. unfold pow_result.
   destruct sd as [|[k v] [|p sd]]; try reflexivity; [|destruct k; reflexivity].
   destruct k; try reflexivity. cbn [single_pow_key] in G. destruct k2; try reflexivity; discriminate G.
 Qed.
 
-Lemma bvisit_switch : forall sd ap vis x, single_pow_key sd = false ->
-  bvisit true sd ap vis x = bvisit false sd ap vis x.
+Lemma bvisit_switch : forall Sp sd ap vis x, single_pow_key sd = false ->
+  bvisit Sp true sd ap vis x = bvisit Sp false sd ap vis x.
 Proof.
-  intros sd ap vis x G. destruct x; try reflexivity. cbn [bvisit].
+  intros Sp sd ap vis x G. destruct x; try reflexivity. cbn [bvisit].
   destruct (ap vis x1) as [[b' v1]| | |]; cbn [bind]; try reflexivity.
   destruct (ap v1 x2) as [[e' v2]| | |]; cbn [bind]; try reflexivity.
-  rewrite (pow_result_switch sd _ _ _ _ _ G). reflexivity.
+  rewrite (pow_result_switch Sp sd _ _ _ _ _ G). reflexivity.
 Qed.
 
 Lemma rres_eq : forall A (a b : res (A * mdict)), rres eq a b -> a = b.
@@ -127,12 +127,12 @@ Qed.
 Lemma rres_eq_refl : forall A (a : res (A * mdict)), rres eq a a.
 Proof. intros A a. destruct a as [[x s]| | |]; cbn; auto. Qed.
 
-Lemma apply_switch : forall sd, single_pow_key sd = false ->
-  forall f cache vis x, apply f true cache sd vis x = apply f false cache sd vis x.
+Lemma apply_switch : forall Sp sd, single_pow_key sd = false ->
+  forall f cache vis x, apply Sp f true cache sd vis x = apply Sp f false cache sd vis x.
 Proof.
-  intros sd G. induction f as [|f IH]; intros cache vis x; [reflexivity|].
+  intros Sp sd G. induction f as [|f IH]; intros cache vis x; [reflexivity|].
   rewrite !apply_S.
-  assert (B : bvisit true sd (apply f true cache sd) vis x = bvisit false sd (apply f false cache sd) vis x).
+  assert (B : bvisit Sp true sd (apply Sp f true cache sd) vis x = bvisit Sp false sd (apply Sp f false cache sd) vis x).
   { rewrite bvisit_switch by exact G. apply rres_eq. apply bvisit_param; [|reflexivity].
     intros y _ s1 s2 <-. rewrite IH. apply rres_eq_refl. }
   destruct cache.
@@ -142,4 +142,4 @@ Qed.
 
 Theorem subs_is_xreplace_guarded : forall cache sd x, single_pow_key sd = false ->
   subs_gen KSubs cache sd x = subs_gen KXreplace cache sd x.
-Proof. intros cache sd x G. unfold subs_gen. cbn [subs_pow]. rewrite (apply_switch sd G). reflexivity. Qed.
+Proof. intros cache sd x G. unfold subs_gen, subs_with. cbn [subs_pow]. rewrite (apply_switch real_sops sd G). reflexivity. Qed.
